@@ -1,6 +1,6 @@
 (** C39 — source tools only serve the recorded source, within bounds.  Property theorems only. *)
 From Coq Require Import Permutation.
-From Akita Require Import Lib.Base Lib.KeySort C37.Model C39.Model C39.Proofs.
+From Akita Require Import Lib.Base Lib.KeySort C37.Model C39.Model C39.Proofs C39.Proofs2.
 Local Open Scope N_scope.
 
 (** A path the tools accept never escapes the recorded tree: it is not absolute,
@@ -37,6 +37,14 @@ Theorem c39_no_escape_ls : forall m hr p,
   end.
 Proof. exact code_ls_no_escape. Qed.
 Print Assumptions c39_no_escape_ls.
+
+(** A directory listing (code_ls) names only first path elements of recorded keys
+    below the listed directory — for every request string and every tree. *)
+Theorem c39_listing_only_recorded : forall m hr p c es,
+  code_ls m hr p = LDir c es ->
+  forall e, In e es -> exists k d, In (k, d) m /\ has_prefix (dir_prefix c ++ d_name e) k = true.
+Proof. exact code_ls_only_recorded. Qed.
+Print Assumptions c39_listing_only_recorded.
 
 (** The served tree holds only recorded content under valid keys, whatever the
     iteration order of the rows and of each archive's file map (the lists ARE
